@@ -21,6 +21,7 @@ SPEC = {
         'SHA-256 is not modelled: the model returns the byte string that is hashed and the harness checks the real hash '
         'against hashlib over exactly those bytes',
         'the model is tied to lib/tx.py, lib/util.py and OnDiskBlock by differential execution, not by proof',
+        'no lemma states canonTx (serialize tx) (that serialisation produces canonical varints), so C13_serialize_read is not shown to apply to every output of serialize; the log_block branch of OnDiskBlock.iter_txs (outside the try) is not modelled',
     ],
     'design_ref': 'DESIGN.md §6 C13',
     'level_text': 'proof: read-after-serialize, serialize-after-read (canonical varints), failure on every truncation, '
